@@ -196,6 +196,12 @@ func TO2(ctx context.Context, transport Transport, to1d *cose.Sign1[protocol.To1
 	serviceInfoReader, serviceInfoWriter := serviceinfo.NewChunkOutPipe(0)
 	defer func() { _ = serviceInfoWriter.Close() }()
 
+	// Subtract 3 bytes from MTU to account for a CBOR header indicating "array
+	// of 256-65535 items" and 2 more bytes for "array of two" plus the first
+	// item indicating "IsMoreServiceInfo". The devmod writer must use the same
+	// value as the send loop, because it sizes its messages to fit.
+	sendMTU -= 5
+
 	// Send devmod KVs in initial ServiceInfo
 	go c.Devmod.Write(ctx, c.DeviceModules, sendMTU, serviceInfoWriter)
 
@@ -1207,11 +1213,6 @@ func exchangeServiceInfo(ctx context.Context,
 	// function exits will shutdown
 	ctx, cancel := context.WithCancel(ctx)
 	defer cancel()
-
-	// Subtract 3 bytes from MTU to account for a CBOR header indicating "array
-	// of 256-65535 items" and 2 more bytes for "array of two" plus the first
-	// item indicating "IsMoreServiceInfo"
-	mtu -= 5
 
 	// 1000 service info buffered in and out means up to ~1MB of data for
 	// the default MTU. If both queues fill, the device will deadlock. This
